@@ -166,7 +166,7 @@ def generate(rng, tier, cls):
     r.update(gen.gen_stream_extras(rng))
 
     if rng.chance(0.15):
-        r['mutate'] = rng.randint(1, 4)
+        r['mutate'] = rng.randint(1, 5)
 
     wspec = {'id': 'P1', 'kind': 'writer', 'file': 'f1',
              'main_encoding': main, 'ops': ops}
